@@ -185,6 +185,10 @@ var hC10Table = []struct {
 	// by LLVM: LLLexer HexToIntPair / FP80HexToIntPair; accepted by llvm-as 14)
 	{types.FloatKindX86_FP80, "0xK1", false, "", 0}, {types.FloatKindPPC_FP128, "0xM1", false, "0xM00000000000000000000000000000001", 0},
 	{types.FloatKindFP128, "0xL01", false, "0xL00000000000000000000000000000001", 0}, {types.FloatKindHalf, "0xH1", false, "0xH0001", 0}, {types.FloatKindDouble, "0x1", false, "", 0},
+	// decimal spellings whose exponent alone is beyond the range of a double
+	// while the value is not (a long mantissa compensates)
+	{types.FloatKindDouble, "0.0000000000000000000000000000000000000000000000000000000000000000000000000000000000000000000001e+401", false, "0x7FAC7B1F3CAC7433", 0},
+	{types.FloatKindDouble, "10000000000000000000000000000000000000000000000000000000000000000000000000000000000000000000000000000.0e-401", false, "0x17124E63593F5E1", 0},
 	{types.FloatKindDouble, "0.0", false, "", 0}, {types.FloatKindDouble, "-0.0", false, "", 0}, {types.FloatKindDouble, "1.0", false, "", 0},
 	{types.FloatKindDouble, "1000000.0", false, "", 0}, {types.FloatKindDouble, "1.0e22", false, "", 0}, {types.FloatKindDouble, "5.0e7", false, "", 0},
 	{types.FloatKindDouble, "0.1", false, "", 0}, {types.FloatKindDouble, "-2.5e-3", false, "", 0}, {types.FloatKindDouble, "1.5e300", false, "", 0},
